@@ -8,13 +8,14 @@ import (
 type cfgInfo struct {
 	ipdom  map[*ssa.BasicBlock]*ssa.BasicBlock // nil = virtual exit
 	inLoop map[*ssa.BasicBlock]bool
+	reach  map[*ssa.BasicBlock]map[*ssa.BasicBlock]bool
 }
 
 func (it *Interp) cfg(fn *ssa.Function) *cfgInfo {
 	if c, ok := it.cfgs[fn]; ok {
 		return c
 	}
-	c := &cfgInfo{ipdom: map[*ssa.BasicBlock]*ssa.BasicBlock{}, inLoop: map[*ssa.BasicBlock]bool{}}
+	c := &cfgInfo{ipdom: map[*ssa.BasicBlock]*ssa.BasicBlock{}, inLoop: map[*ssa.BasicBlock]bool{}, reach: map[*ssa.BasicBlock]map[*ssa.BasicBlock]bool{}}
 	n := len(fn.Blocks)
 	exit := n // virtual exit index
 	// post-dominator sets by iterative dataflow (functions are small)
@@ -108,6 +109,13 @@ func (it *Interp) cfg(fn *ssa.Function) *cfgInfo {
 			}
 		}
 		c.inLoop[fn.Blocks[i]] = seen[i]
+		rm := map[*ssa.BasicBlock]bool{}
+		for j, ok := range seen {
+			if ok {
+				rm[fn.Blocks[j]] = true
+			}
+		}
+		c.reach[fn.Blocks[i]] = rm
 	}
 	it.cfgs[fn] = c
 	return c
